@@ -22,6 +22,42 @@ CONFIG = {
         ),
         det=dict(quick=8, thorough=32),
     ),
+    "C02": dict(
+        engine="runner",
+        level="exploration",
+        tiers=dict(
+            quick=dict(runs=1200, opts=dict(real_frac=0.02, limit=300)),
+            thorough=dict(runs=120000, opts=dict(real_frac=0.01, limit=600)),
+        ),
+        det=dict(quick=32, thorough=128),
+    ),
+    "C03": dict(
+        engine="pool",
+        level="exploration",
+        tiers=dict(
+            quick=dict(runs=160, opts=dict(n_widths=3, n_schedules=2, limit=300)),
+            thorough=dict(runs=12000, opts=dict(n_widths=4, n_schedules=3, w_fidelity=0.05, limit=600)),
+        ),
+        det=dict(quick=16, thorough=48),
+    ),
+    "C47": dict(
+        engine="repro",
+        level="exploration",
+        tiers=dict(
+            quick=dict(runs=16, opts=dict(cards_per_case=4, limit=600)),
+            thorough=dict(runs=640, opts=dict(cards_per_case=6, limit=900)),
+        ),
+        det=dict(quick=8, thorough=24),
+    ),
+    "C17": dict(
+        engine="couplings",
+        level="exploration",
+        tiers=dict(
+            quick=dict(runs=3000, opts=dict()),
+            thorough=dict(runs=300000, opts=dict()),
+        ),
+        det=dict(quick=32, thorough=256),
+    ),
     "C37": dict(
         engine="store",
         level="exploration",
@@ -178,15 +214,16 @@ def run_check(args):
         if hasattr(mod, "focus"):
             case = mod.focus(case, v)
         res1 = batch.run_case(cfg["engine"], case)
-        if res1.get("harness_error") or batch.violation_class(res1) != cls:
+        batch.put_first(res1, cls)
+        if res1.get("harness_error") or not batch.has_class(res1, cls):
             out(f"HARNESS-ERROR violation of seed {r['seed']} ({cls} [{key}]) did not reproduce in-process: {res1.get('harness_error') or res1['violations'][:1]}")
             return batch.EXIT_HARNESS
         small, rs = case, res1
         if gi < MAX_SHRUNK:
             cand = batch.shrink_case(cfg["engine"], case, res1, budget_s=60)
             rc = batch.run_case(cfg["engine"], cand)
-            if batch.violation_class(rc) == cls and not rc.get("harness_error"):
-                small, rs = cand, rc
+            if batch.has_class(rc, cls) and not rc.get("harness_error"):
+                small, rs = cand, batch.put_first(rc, cls)
         path = batch.write_replay(prop, cfg["engine"], small, rs)
         if gi < MAX_SHRUNK:
             ok, log = batch.replay_fresh(path)
